@@ -192,7 +192,14 @@ type Store struct {
 	dir            string
 	fullNeededPath string
 	reapPlanPath   string
-	logger         *log.Logger
+
+	// fullNeededMu serializes every change to the full-snapshot requirement (the
+	// FULL_NEEDED file) with the compare-and-clear a Sink performs when it installs
+	// a full snapshot. fullNeededSeq makes every requirement distinguishable.
+	fullNeededMu  sync.Mutex
+	fullNeededSeq atomic.Uint64
+
+	logger *log.Logger
 
 	catalog *SnapshotCatalog
 
@@ -716,10 +723,19 @@ func (s *Store) DueNext() (Type, error) {
 // SetDueNext sets the type of snapshot due next. Setting Full
 // creates a flag file; setting Incremental removes it.
 func (s *Store) SetDueNext(t Type) error {
+	s.fullNeededMu.Lock()
+	defer s.fullNeededMu.Unlock()
 	switch t {
 	case Full:
+		// Every requirement gets its own token, so that a snapshot captured before
+		// the requirement was raised (again) can tell that it does not satisfy it.
+		token := fmt.Sprintf("%d-%d", time.Now().UnixNano(), s.fullNeededSeq.Add(1))
 		f, err := os.Create(s.fullNeededPath)
 		if err != nil {
+			return err
+		}
+		if _, err := f.WriteString(token); err != nil {
+			f.Close()
 			return err
 		}
 		if err := f.Sync(); err != nil {
@@ -731,16 +747,55 @@ func (s *Store) SetDueNext(t Type) error {
 		}
 		return fsutil.SyncDirMaybe(s.dir)
 	case Incremental:
-		if !fsutil.FileExists(s.fullNeededPath) {
-			return nil
-		}
-		if err := os.Remove(s.fullNeededPath); err != nil {
-			return err
-		}
-		return fsutil.SyncDirMaybe(s.dir)
+		return s.removeFullNeeded()
 	default:
 		return fmt.Errorf("unknown snapshot type: %s", t)
 	}
+}
+
+// removeFullNeeded removes the flag file. The caller must hold fullNeededMu.
+func (s *Store) removeFullNeeded() error {
+	if !fsutil.FileExists(s.fullNeededPath) {
+		return nil
+	}
+	if err := os.Remove(s.fullNeededPath); err != nil {
+		return err
+	}
+	return fsutil.SyncDirMaybe(s.dir)
+}
+
+// FullNeededToken returns a token identifying the full-snapshot requirement
+// currently in force, and whether there is one. A snapshot that is meant to
+// satisfy the requirement must read the token when its content is captured and
+// hand it to ClearFullNeeded once it has been installed.
+func (s *Store) FullNeededToken() (string, bool) {
+	s.fullNeededMu.Lock()
+	defer s.fullNeededMu.Unlock()
+	b, err := os.ReadFile(s.fullNeededPath)
+	if err != nil {
+		return "", false
+	}
+	return string(b), true
+}
+
+// ClearFullNeeded removes the full-snapshot requirement, but only if it is still
+// the one identified by token. If the requirement has been raised again since the
+// token was read -- for example by a database load applied while the snapshot was
+// being persisted -- it stays in force.
+func (s *Store) ClearFullNeeded(token string) error {
+	s.fullNeededMu.Lock()
+	defer s.fullNeededMu.Unlock()
+	b, err := os.ReadFile(s.fullNeededPath)
+	if err != nil {
+		if os.IsNotExist(err) {
+			return nil
+		}
+		return err
+	}
+	if string(b) != token {
+		return nil
+	}
+	return s.removeFullNeeded()
 }
 
 // Stats returns stats about the Snapshot Store. This function may return
